@@ -161,7 +161,10 @@ PROPS["C20"]["rule"] += "; query engine: QueryRateLimiting policy grid x exact b
 PROPS["C01"]["engines"] = ["server", "maint", "flood", "query", "lookups"]
 PROPS["C08"]["engines"] = ["server", "flood"]
 PROPS["C08"]["rule"] += (" ; flood engine (oracle only): bursts of 24 (60) queries delivered back to back so that replies overlap in time, "
-                         "x WaitToReply on/off x timed limiters: every reply attributed by transaction id must go to that query's source with its compact address")
+                         "x WaitToReply on/off x timed limiters: every reply attributed by transaction id must go to that query's source with its compact address"
+                         " ; lower bound of the send budget (flood_recover.go): after an over-budget burst with refused replies, failed socket writes, refused / blocked / "
+                         "pre-cancelled outbound sends and waits cancelled in flight, and a measured quiet time worth two tokens (or, with a zero-rate limiter, while "
+                         "burst - datagrams written > 0), each single query must be answered")
 PROPS["C20"]["engines"] = ["server", "query", "flood"]
 PROPS["C20"]["rule"] += (" ; flood engine: timed limiters (rate 100..1000/s, burst 1..20): writes in every prefix window <= burst + rate x window "
                          "(one-sided, real time), replies dropped without budget (wait off) or delayed (wait on), errors never wait")
